@@ -349,6 +349,10 @@ type hideReset struct{ c *flate.Writer }
 func (h hideReset) Write(p []byte) (int, error) { return h.c.Write(p) }
 func (h hideReset) Flush() error                { return h.c.Flush() }
 
+type hideResetCloser struct{ hideReset }
+
+func (h hideResetCloser) Close() error { return h.c.Close() }
+
 type badCompressor struct{ w io.Writer }
 
 func (b badCompressor) Write(p []byte) (int, error) { return b.w.Write(p) }
@@ -394,15 +398,20 @@ func subFlateWriter() mon.Sub {
 			return 3000
 		},
 		Do: func(c *mon.C) {
-			resettable := c.I%2 == 0
+			// the compressor offers Reset (and Close), Close only, or neither of the optional methods
+			ckind := c.I % 3
+			resettable := ckind == 0
 			ctor := func(w io.Writer) wsflate.Compressor {
 				f, _ := flate.NewWriter(w, 6)
-				if resettable {
+				switch ckind {
+				case 0:
 					return f
+				case 1:
+					return hideResetCloser{hideReset{f}}
 				}
 				return hideReset{f}
 			}
-			hkind := c.I / 2 % 7
+			hkind := c.I / 3 % 7
 			var a *wsflate.Writer
 			hdesc := ""
 			switch hkind {
@@ -484,7 +493,7 @@ func subFlateWriter() mon.Sub {
 					map[string]interface{}{"history": hdesc, "resettable_compressor": resettable, "reused": trunc(x), "fresh": trunc(y), "step": i})
 				return
 			}
-			c.Classf("hist=%d resettable=%v", hkind, resettable)
+			c.Classf("hist=%d compressor=%d", hkind, ckind)
 			c.Sample(map[string]interface{}{"history": hdesc, "resettable_compressor": resettable, "messages": len(msgs)})
 		},
 	}
@@ -815,7 +824,7 @@ func main() {
 		Property: "C18",
 		Level:    "exploration",
 		Rule: "differential against a freshly constructed instance with the same configuration (same destination kind, state, opcode and Size()): object A goes through a history, is reset (or put into and taken from the pool; pool shim in LIFO+poison mode so the same object comes back, poisoned), then the same operation sequence S is applied to A and to a new B and every observable is compared (return values, Buffered/Available/Size, frames reaching the destination per call with payloads unmasked). " +
-			"wsutil.Writer: histories of 0-7 random ops incl. failing destinations (one-shot or sticky), Grow, DisableFlush, SetExtensions, any side, partial messages; modes Reset / PutWriter+GetWriter / ResetOp (error-free histories; keeps extensions and flush mode); S = 1-12 random ops + Flush. wsflate.Writer.Reset after unflushed data / flushed / failed destination / closed, resettable and non-resettable compressors. wsflate.Reader.Reset after partial read / complete read / corrupt stream / failing source, intact/truncated/corrupted next stream, byte-reader and plain sources. CipherReader/Writer, UTF8Reader (mid code point, after reject), wsflate.Extension. wsutil.Reader: every ordered pair of enumerated messages, first one read or discarded after 0/1/3/6/9 bytes (before it, mid code point, on a fragment boundary, past its end), vs a new Reader on the second. distinct = (mode, history shape) classes.",
+			"wsutil.Writer: histories of 0-7 random ops incl. failing destinations (one-shot or sticky), Grow, DisableFlush, SetExtensions, any side, partial messages; modes Reset / PutWriter+GetWriter / ResetOp (error-free histories; keeps extensions and flush mode); S = 1-12 random ops + Flush. wsflate.Writer.Reset after unflushed data / flushed / failed destination / closed, compressors offering Reset / Close only / neither. wsflate.Reader.Reset after partial read / complete read / corrupt stream / failing source, intact/truncated/corrupted next stream, byte-reader and plain sources. CipherReader/Writer, UTF8Reader (mid code point, after reject), wsflate.Extension. wsutil.Reader: every ordered pair of enumerated messages, first one read or discarded after 0/1/3/6/9 bytes (before it, mid code point, on a fragment boundary, past its end), vs a new Reader on the second. distinct = (mode, history shape) classes.",
 		Assumptions: []string{"for wsutil.Writer 'same configuration' includes the same Size(): a grown buffer stays grown", "UTF8Reader.Accepted() before the first read after a reset is not compared", "ResetOp is only compared after error-free histories (its documentation does not speak about errors)"},
 		Setup:       func(r *mon.Run) { pool.Configure(true, pool.ReuseLIFO, false, false) },
 		Subs:        []mon.Sub{subWriterReset(), subFlateWriter(), subFlateReader(), subSmallObjects(), subReaderNext()},
